@@ -78,6 +78,8 @@ func runC14(c *Ctx) {
 	R.Rule("C14.R1", "bounds: every index/slice expression written in the module that the compiler's prove pass could not discharge (its own -d=ssa/check_bce report; all other bounds checks are proven by the compiler) is discharged by a named guard: G1 x[len(x)-1] / x[:len(x)-1] under len(x)≥1 (or the C09 stack invariant); G2 constant index under a length test plus the Split contract; G3 s[i:]/s[:i]/s[i+1:] with i from strings.Index* under i≥0; G4 s[len(m):] with m a FindString match of the same s; G5 FindStringIndex bounds (loc!=nil, 0≤lo≤hi≤len, lo+1≤hi by minimum match length); G6 v[:i+1]/v[i+1:] under the counted loop i<len(v); G7 c[0]/c[1:] under len(c)>K")
 	R.Rule("C14.R2", "other partial operations on sanitising paths: no explicit panic, no non-comma-ok type assertion, no integer division, no channel operation; calls through func-valued policy fields and method calls on *regexp.Regexp rule fields only under a non-nil test")
 	R.Rule("C14.R3", "recursion is structural: the only cycles of the module call graph are self-recursive functions whose recursive argument is a strict suffix of their parameter")
+	R.Rule("C14.R7", "per-call cost does not depend on earlier calls: no function on a sanitising path grows (appends to, inserts into) memory that outlives the call — policy tables, package state — so work done for one token is never added to what later tokens or calls must process (= C13.R1, cited for its complexity consequence)")
+	c13SharedWrites(c, "C14.R7", "state that outlives the call grows with every token or call that takes this path, and so does the work of each later one (sanitising slows down without bound, or exhausts memory)", true)
 	R.Rule("C14.R4", "no unbounded backtracking: a function that calls itself inside a loop over its own argument (no memo table) has worst-case exponential cost; every external call site must pass an argument whose length is bounded by a constant on all paths")
 	R.Rule("C14.R6", "a value that comes with an error is used only where the error is nil: for every call on a sanitising path that returns (pointer or interface, error), each use of the value is unreachable from the err != nil edge of a test of that error (the edge must return, continue or break away first); a value whose error is never tested must not be used at all — otherwise a nil result is dereferenced (or handed to a callback) when the call fails")
 	R.Rule("C14.R5", "loops terminate by shape: every loop on a sanitising path is a range loop, a counted loop, the token loop, a strictly-shrinking-string/slice loop, or a listed exception with a written argument (removeUnicode's rewrite loop)")
